@@ -2,7 +2,7 @@
 //
 // NOT linked against cppcheck.  usage:  c13_astx <source.cpp> -- <compile flags>
 // Prints one JSON object per line (closed grammar, consumed by vlib/props/c13.py):
-//   {"k":"fn","id":USR,"name":qualified,"loc":"file:line:col","kind":"fn"|"lambda"}
+//   {"k":"fn","id":USR,"name":qualified,"loc":"file:line:col","kind":"fn"|"lambda","nothrow":bool}
 //   {"k":"try","id":LOC,"fn":USR,"parent":[try ids, innermost first],"handlers":[{"type":T,"loc":LOC,"throws":N,"exits":N}]}
 //   {"k":"throw","fn":USR,"loc":LOC,"type":T,"rethrow":bool,"ctx":[try ids enclosing, innermost first],"macro":name}
 //   {"k":"call","fn":USR,"callee":USR,"name":qualified callee,"loc":LOC,"ctx":[...],"virt":bool,"noexc":bool,"obj":text,"arg0":text
@@ -168,10 +168,34 @@ public:
         }
         return "[" + s + "]";
     }
+    // non-throwing exception specification: an exception that tries to leave such a function calls std::terminate
+    // ([except.spec]); destructors are noexcept unless declared otherwise.  Unresolved specifications (unevaluated /
+    // uninstantiated) are resolved by rule: destructor -> nothrow, anything else -> may throw.
+    static bool isNothrowFn(const FunctionDecl *FD) {
+        const auto *FPT = FD->getType()->getAs<FunctionProtoType>();
+        if (!FPT) return false;
+        switch (FPT->getExceptionSpecType()) {
+        case EST_Unparsed:
+        case EST_Unevaluated:
+        case EST_Uninstantiated:
+            return isa<CXXDestructorDecl>(FD);
+        case EST_None:
+            // a destructor without any specification written is implicitly noexcept(true) when all subobject destructors are
+            return isa<CXXDestructorDecl>(FD);
+        case EST_DependentNoexcept:
+        case EST_NoexceptFalse:
+        case EST_Dynamic:
+        case EST_MSAny:
+            return false;
+        default:
+            return FPT->isNothrow();
+        }
+    }
     std::string fnRecord(const FunctionDecl *FD, const char *kind) {
         std::string usr = fnId(FD);
         if (seenFn.insert(usr).second)
-            out("{\"k\":\"fn\",\"id\":\"" + jesc(usr) + "\",\"name\":\"" + jesc(FD->getQualifiedNameAsString()) + "\",\"loc\":\"" + jesc(locStr(FD->getLocation())) + "\",\"kind\":\"" + kind + "\"}");
+            out("{\"k\":\"fn\",\"id\":\"" + jesc(usr) + "\",\"name\":\"" + jesc(FD->getQualifiedNameAsString()) + "\",\"loc\":\"" + jesc(locStr(FD->getLocation())) + "\",\"kind\":\"" + kind +
+                "\",\"nothrow\":" + (isNothrowFn(FD) ? "true" : "false") + "}");
         return usr;
     }
 
@@ -424,9 +448,7 @@ public:
         if (!inProject(FD->getLocation()) && !interesting(FD->getQualifiedNameAsString()))
             return;
         std::string usr = fnId(FD);
-        bool noexc = false;
-        if (const auto *FPT = FD->getType()->getAs<FunctionProtoType>())
-            noexc = FPT->isNothrow();
+        const bool noexc = isNothrowFn(FD);
         out("{\"k\":\"call\",\"fn\":\"" + jesc(F.usr) + "\",\"callee\":\"" + jesc(usr) + "\",\"name\":\"" + jesc(FD->getQualifiedNameAsString()) + "\",\"loc\":\"" + jesc(locStr(L)) +
             "\",\"ctx\":" + ctxList(F.tries) + ",\"virt\":" + (virt ? "true" : "false") + ",\"noexc\":" + (noexc ? "true" : "false") +
             ",\"obj\":\"" + jesc(argText(obj)) + "\",\"arg0\":\"" + jesc(argText(a0)) + "\",\"incatch\":" + (F.catchTy.empty() ? "false" : "true") + condsField(FD, whole) + "}");
